@@ -102,11 +102,22 @@ func compile(fs afero.Fs, name string) (c compiled) {
 	return compiled{kind: "ok", mod: m}
 }
 
-func compileText(text string) compiled {
+// generated texts may import these
+var depFiles = map[string]string{
+	"dep.sysl":      "Dep:\n    Ep:\n        ...\n",
+	"sub/dep2.sysl": "Dep Two:\n    !type Foo:\n        x <: int\n",
+}
+
+func textFs(text string) afero.Fs {
 	fs := afero.NewMemMapFs()
 	afero.WriteFile(fs, "temp.sysl", []byte(text), 0o644)
-	return compile(fs, "temp.sysl")
+	for n, c := range depFiles {
+		afero.WriteFile(fs, n, []byte(c), 0o644)
+	}
+	return fs
 }
+
+func compileText(text string) compiled { return compile(textFs(text), "temp.sysl") }
 
 const sourceContextName = "sysl.SourceContext"
 
